@@ -127,6 +127,9 @@ class SArr(Model):
         return self.at(self.norm_index(I, idx))
 
     def slice(self, I, sl):
+        if sl.step == -1 and sl.start is None and sl.stop is None:
+            g, n = self.fn, self.length
+            return SArr(n, lambda k: g(_sub(_sub(n, 1), k)), kind=self.kind)
         if sl.step not in (None, 1):
             raise Unsupported('slice with step')
         n = self.length
@@ -271,6 +274,14 @@ class MaskedView(SArr):
         raise Unsupported('length of a masked view')
 
 
+class MaybeInf:
+    """np.inf where `cond` holds, else `val` (what np.where(c, np.inf, x) produces); only supported as a divisor:
+    a / inf = 0."""
+
+    def __init__(self, cond, val):
+        self.cond, self.val = cond, val
+
+
 def _ite(c, a, b):
     if isinstance(c, bool):
         return a if c else b
@@ -290,6 +301,11 @@ def _ite(c, a, b):
         return z3.If(c2, za, zb)
     if a is None and b is None:
         return None
+    from . import INF
+    if a is INF and b is not INF:
+        return MaybeInf(c2, b)
+    if b is INF and a is not INF:
+        return MaybeInf(z3.Not(c2), a)
     from ..values import EnumMember, SymEnum, NPStr
     ea, eb = _enum_ord(a), _enum_ord(b)
     if ea is not None and eb is not None and ea[0] is eb[0]:
@@ -385,6 +401,9 @@ def elementwise(I, op, a, b):
         k = I.ctx.fresh('k', Z)
         I.ctx.assume(z3.And(k >= 0, k < to_z3(n)))
         d = _elem(b, k)
+        if isinstance(d, MaybeInf):
+            I.ctx.assume(z3.Not(d.cond))
+            d = d.val
         cur = I.hooks.get('cur_func')
         if is_sym(d) and cur in I.hooks.get('assume_defined', {}):
             # the contract assumes this function's array divisions are defined on its input range
@@ -400,6 +419,8 @@ def elementwise(I, op, a, b):
 
         def fn(k2):
             x, y = _elem(a, k2), _elem(b, k2)
+            if isinstance(y, MaybeInf) and op == 'Div':
+                return z3.If(y.cond, z3.RealVal(0), to_real(x) / to_real(y.val))
             if is_sym(x) or is_sym(y):
                 if op == 'Div':
                     return to_real(x) / to_real(y)
@@ -451,6 +472,30 @@ def array_sum(I, arr: SArr):
     return sumlib.sum_of(I, arr, 0, arr.length)
 
 
+def _generic_element(I, arr):
+    """True / False if the Boolean array's element at a fresh generic index is entailed true / false under the
+    path condition (element preconditions are instantiated by reading it); None otherwise."""
+    k = I.ctx.fresh('k', Z)
+    n = to_z3(arr.length)
+    I.ctx.solver.push()
+    I.ctx.light.push()
+    saved = len(I.ctx.pc)
+    try:
+        I.ctx.assume(z3.And(k >= 0, k < n))
+        c = _as_bool(arr.at(k))
+        if isinstance(c, bool):
+            return c
+        if I.ctx.entails(c):
+            return True
+        if I.ctx.entails(z3.Not(c)):
+            return False
+        return None
+    finally:
+        del I.ctx.pc[saved:]
+        I.ctx.solver.pop()
+        I.ctx.light.pop()
+
+
 def array_all(I, arr: SArr):
     if getattr(arr, 'const_value', None) is True:
         return True
@@ -460,6 +505,9 @@ def array_all(I, arr: SArr):
         for i in range(n):
             r = I.and_(r, _as_bool(arr.at(i)))
         return r
+    g = _generic_element(I, arr)
+    if g is True:
+        return True          # holds for a generic index, hence for all
     k = z3.Int('k!all%d' % I.ctx.fresh_counter)
     I.ctx.fresh_counter += 1
     return z3.ForAll([k], z3.Implies(z3.And(k >= 0, k < to_z3(n)), to_z3(_as_bool(arr.at(k)))))
@@ -474,6 +522,9 @@ def array_any(I, arr: SArr):
         for i in range(n):
             r = I.or_(r, _as_bool(arr.at(i)))
         return r
+    g = _generic_element(I, arr)
+    if g is False:
+        return False         # fails for a generic index, hence for every index
     k = z3.Int('k!any%d' % I.ctx.fresh_counter)
     I.ctx.fresh_counter += 1
     return z3.Exists([k], z3.And(k >= 0, k < to_z3(n), to_z3(_as_bool(arr.at(k)))))
